@@ -9,7 +9,7 @@ from ..model import FunctionInfo, bind_args
 from ..roles import roles_of
 from ..terms import call_name, canon, const_num, dotted
 from .c15 import is_gp_expr
-from .common import iter_stores, kw, reaching_assignments
+from .common import iter_stores, kw, pos, reaching_assignments
 
 EXPLANATION = (
     "R1: every <gp>.fit(...) call site is lexically inside a try whose handler catches LinAlgError (or wider), has no raise "
@@ -417,5 +417,40 @@ def check(ctx):
                 ctx.check(shp == ref, fn, c, f"fallback start has the shape of {ref}", f"a retry starts the fit from an array shaped like '{shp}' while the first attempt passes '{ref}': the fallback attempt fails with a shape/index error instead of recovering", construct=f"fallback hyp0 shaped like {shp} (first attempt: {ref})")
     if n4 == 0:
         ctx.rules["R4"].floor = 0
+    ctx.rule("R8", "in a retry handler the hyperparameters installed in the GP are the vector the next attempt starts from", floor=1)
+    n8 = 0
+    for fn in fit_fns:
+        for c in fit_calls(prog, fn):
+            h = kw(c, "hyp0")
+            if not isinstance(h, ast.Name):
+                continue
+            tr = next((p_ for p_ in prog.ancestors(c) if isinstance(p_, ast.Try) and in_body(prog, c, p_)), None)
+            if tr is None or not any(isinstance(p_, (ast.For, ast.While)) for p_ in prog.ancestors(tr)):
+                continue
+            for hd in tr.handlers:
+                if not handler_catches_linalg(hd):
+                    continue
+                sets = [n for b_ in hd.body for n in ast.walk(b_) if isinstance(n, ast.Call) and isinstance(n.func, ast.Attribute) and n.func.attr == "set_hyperparameters" and n.args
+                        and canon(n.func.value) == canon(c.func.value)]
+                if not sets:
+                    continue
+                last = max(sets, key=pos)
+                a = last.args[0]
+                # plain copies of the start vector made inside the handler count as the vector itself
+                names = {h.id}
+                grew = True
+                while grew:
+                    grew = False
+                    for t_, v_, s_, k_ in iter_stores(fn.node):
+                        if isinstance(t_, ast.Name) and isinstance(v_, ast.Name) and k_ == "assign" and ((v_.id in names and t_.id not in names) or (t_.id in names and v_.id not in names)) \
+                                and any(s_ is x for b_ in hd.body for x in ast.walk(b_)) and pos(s_) > pos(last):
+                            names |= {t_.id, v_.id}
+                            grew = True
+                n8 += 1
+                ctx.check(isinstance(a, ast.Name) and a.id in names, fn, last, f"set_hyperparameters({canon(a)}) installs the restart vector {h.id}",
+                          f"the retry handler installs '{canon(a)[:40]}' in the GP but the next attempt starts from '{h.id}', which the handler did not bring to the same (nudged, re-normalised) value: "
+                          "the restart point keeps the shape / noise level from before the nudge", construct=f"restart vector {h.id} vs installed {canon(a)[:30]}")
+    if n8 == 0:
+        ctx.rules["R8"].floor = 0
     ctx.assume("implicit exceptions other than those raised inside try bodies are not modelled")
     ctx.assume("ten consecutive failures (all attempts exhausted) are outside the property's quantifier (runs of 2-4)")
